@@ -36,7 +36,7 @@ EXTRA_PROPS = {
 # necessary condition of *every* behavioural property for the code that property is anchored in: they also run under a
 # property that does not list them, restricted to constructs located in that property's anchored files
 # (properties.jsonl anchors.files + polarity.EXTRA_FILES).  Prefix match on the rule id.
-SAFETY_RULES = ('R-SIG-', 'R-MLT-', 'R-UAC-', 'R-DISCR-ORDER', 'R-INIT-DISCR', 'R-EXC-PAIR', 'R-MOVE', 'R-FWD-ONCE', 'R-NOTHROW-SRC', 'R-NOEXCEPT-BODY', 'R-OWN-', 'R-SMF-FLAG', 'R-ASSIGN-ALIAS',
+SAFETY_RULES = ('R-SIG-', 'R-MLT-', 'R-UAC-', 'R-DISCR-ORDER', 'R-INIT-DISCR', 'R-EXC-PAIR', 'R-MOVE', 'R-FWD-ONCE', 'R-NOTHROW-SRC', 'R-NOEXCEPT-', 'R-OWN-', 'R-SMF-FLAG', 'R-ASSIGN-ALIAS',
                 'R-ELECT-', 'R-DEREG-', 'R-CAS-STALE', 'R-MO-', 'R-AVAL-', 'R-CHAN', 'R-CB-AFTER-INIT', 'R-STOP-WRITES', 'R-CANCEL-FLAG', 'R-LIST-', 'R-LOCK-',
                 'R-NOTIFY', 'R-REQSTOP-', 'R-SIB-')
 SCOPED_NOT_FOR = {'C20'}     # C20 compares configurations; it borrows nothing
@@ -135,7 +135,7 @@ def main(argv=None):
         run.broke(str(ex))
         return core.finish(run, t0, meta, 'extraction failed', ASSUMPTIONS)
     meta['digest'] = dg
-    cdir = os.path.join(core.VERIF, 'out', 'rcache', dg + '-' + code_hash()) if not os.environ.get('USA_NO_RCACHE') else None
+    cdir = os.path.join(core.VERIF, 'out', 'rcache', dg + '-' + code_hash() + '-' + a.tier[0]) if not os.environ.get('USA_NO_RCACHE') else None
     if cdir:
         os.makedirs(cdir, exist_ok=True)
         os.utime(cdir)
